@@ -9,7 +9,7 @@
 
 enum { SK_TERM, SK_NT, SK_ERR };
 #define NILTR (-1)
-#define G_MAXSYM 16
+#define G_MAXSYM 18
 #define G_MAXRULE 14
 #define G_MAXRHS 4
 #define G_MAXTR 4
@@ -230,6 +230,31 @@ static const struct gram catalogue[] = {
     { { 1, 2, { 0, 2 }, "node", 1, 1, { 0 } },
       { 2, 2, { 0, 2 }, NULL, 0, 0, { 0 } },
       { 2, 1, { 0 }, NULL, 0, 0, { 0 } } } },
+  /* 27: G28 an untranslated nonterminal that can start at two places next to a translated sibling
+     S : B C # 0 ; B : a # b1() | a a # b2() ; C : a | a a */
+  { "G28", 4, { T ("a", 'a'), N ("S"), N ("B"), N ("C") }, 5,
+    { { 1, 2, { 2, 3 }, NULL, 0, 1, { 0 } },
+      { 2, 1, { 0 }, "b1", 1, 0, { 0 } },
+      { 2, 2, { 0, 0 }, "b2", 1, 0, { 0 } },
+      { 3, 1, { 0 }, NULL, 0, 0, { 0 } },
+      { 3, 2, { 0, 0 }, NULL, 0, 0, { 0 } } } },
+  /* 28: G29 error at the end of a rule and in the middle:  S : a error # e1() | a error b c # e2() */
+  { "G29", 5, { T ("a", 'a'), T ("b", 'b'), T ("c", 'c'), ERR, N ("S") }, 2,
+    { { 4, 2, { 0, 3 }, "e1", 1, 0, { 0 } },
+      { 4, 4, { 0, 3, 1, 2 }, "e2", 1, 0, { 0 } } } },
+  /* 29: G30 three nested error contexts
+     S : a T # s1(1) | a error X # s2(2) ; X : | X x # xx(0) | X y # xy(0) | X r # xr(0) ; T : b U # t1(1) | b error q # t2() ; U : c d # u1() | c error r # u2() */
+  { "G30", 13, { T ("a", 'a'), T ("b", 'b'), T ("c", 'c'), T ("d", 'd'), T ("x", 'x'), T ("y", 'y'), T ("r", 'r'), T ("q", 'q'), ERR, N ("S"), N ("X"), N ("T"), N ("U") }, 10,
+    { { 9, 2, { 0, 11 }, "s1", 1, 1, { 1 } },
+      { 9, 3, { 0, 8, 10 }, "s2", 1, 1, { 2 } },
+      { 10, 0, { 0 }, NULL, 0, 0, { 0 } },
+      { 10, 2, { 10, 4 }, "xx", 1, 1, { 0 } },
+      { 10, 2, { 10, 5 }, "xy", 1, 1, { 0 } },
+      { 10, 2, { 10, 6 }, "xr", 1, 1, { 0 } },
+      { 11, 2, { 1, 12 }, "t1", 1, 1, { 1 } },
+      { 11, 3, { 1, 8, 7 }, "t2", 1, 0, { 0 } },
+      { 12, 2, { 2, 3 }, "u1", 1, 0, { 0 } },
+      { 12, 3, { 2, 8, 6 }, "u2", 1, 0, { 0 } } } },
 };
 #define N_CATALOGUE ((int) (sizeof (catalogue) / sizeof (catalogue[0])))
 
